@@ -461,7 +461,7 @@ def parse_spec_text(text, src='<spec>'):
 # --------------------------------------------------------------------------------------
 # translator
 # --------------------------------------------------------------------------------------
-STD_MODELS = ('std::optional', 'std::tuple', 'std::array', 'std::pair')
+STD_MODELS = ('std::optional', 'std::tuple', 'std::array', 'std::pair', 'std::variant')
 ARITH_MACRO = {'*': 'MUL', '/': 'DIV', '%': 'MOD'}
 
 class Translator:
@@ -1114,6 +1114,15 @@ class Translator:
             fl =['  %s;' % e.decl('e%d' % i) for i, e in enumerate(es)] or ['  char _empty;']
             self.struct_defs.append('/* model of %s */\nstruct %s {\n%s\n};\n' % (key, cname, '\n'.join(fl)))
             return ct
+        if base == 'std::variant':
+            if not args: fail('std::variant without arguments: ' + key, node)
+            es = [self.ctype_str(a, fctx, node) for a in args]
+            cname = self.uniq(self.struct_names, self.abbr('var_' + '_'.join(e.short for e in es), key, 56), key, skey=key)
+            ct = CT('struct', c='struct ' + cname, short=cname, model='variant', margs=es)
+            self.rec_ct[key] = ct
+            fl = ['    %s;' % e.decl('a%d' % i) for i, e in enumerate(es)]
+            self.struct_defs.append('/* model of %s */\nstruct %s {\n  unsigned long idx;\n  union {\n%s\n  } u;\n};\n' % (key, cname, '\n'.join(fl)))
+            return ct
         if base == 'std::array':
             if len(args) != 2: fail('std::array without arguments: ' + key, node)
             e = self.ctype_str(args[0], fctx, node); n = int(args[1])
@@ -1671,7 +1680,8 @@ class Translator:
             if n.get('hasInit'):
                 pre = self.stmt(inner.pop(0), fctx, ind)
             if n.get('hasVar'):
-                fail('if with condition variable', n)
+                # if (T x = init) ... : the condition variable is declared in an enclosing block, the condition tests it
+                pre = pre + self.stmt(inner.pop(0), fctx, ind)
             cond = self.cond(inner[0], fctx)
             out = L + pre + [pad + 'if (%s)' % cond] + self.block(inner[1], fctx, ind)
             if len(inner) > 2:
@@ -2058,6 +2068,8 @@ class Translator:
         if not n.get('isPlacement') or n.get('isArray') or not re.match(r'^void \*\((std::)?size_t, void \*\)', ond):
             fail('new-expression other than non-allocating placement new', n)
         pct = self.ctype(n.get('type'), fctx, n)
+        if pct.kind == 'ptr' and pct.elem.kind == 'struct' and not pct.elem.model:
+            return self.placement_new_record(n, pct, fctx)
         if pct.kind != 'ptr' or not pct.elem.is_scalar():
             fail('placement new of non-scalar type %s' % pct.decl(), n)
         inner = n.get('inner', []) or []
@@ -2076,6 +2088,25 @@ class Translator:
         elif core.get('kind') == 'InitListExpr': v = self.ex(core['inner'][0], fctx)
         else: v = self.ex(init, fctx)
         return '(%s, *%s = %s, %s)' % (p, t, v, t)
+
+    def placement_new_record(self, n, pct, fctx):
+        """non-allocating placement new of a (non-modelled) record:  new(p) T(args) / T{args}
+        ->  ( tmp = (T*)p, T__ctor(tmp, args...), tmp )   for a user-provided constructor,
+            ( tmp = (T*)p, *tmp = <value>, tmp )           for an implicit / defaulted one (plain value)"""
+        inner = n.get('inner', []) or []
+        if n.get('initStyle') in ('list', 'call', 'parens'):
+            if len(inner) != 2: fail('placement new: unexpected operands', n)
+            init, place = inner[0], inner[1]
+        else:
+            fail('placement new of a record without initializer', n)
+        t = self.new_temp(pct, fctx)
+        p = '%s = (%s)%s' % (t, pct.decl(), self.paren(self.ex(place, fctx)))
+        core = self.strip_wrappers(init)
+        if core.get('kind') in ('CXXConstructExpr', 'CXXTemporaryObjectExpr'):
+            r = self.construct_into(core, '(*%s)' % t, fctx)
+            if r is not None:
+                return '(%s, %s, %s)' % (p, ', '.join(r), t)
+        return '(%s, *%s = %s, %s)' % (p, t, self.ex(init, fctx), t)
 
     def ex_CXXThisExpr(self, n, fctx):
         if fctx.captures is not None:
@@ -2204,6 +2235,8 @@ class Translator:
                 if self.is_ref_type(d.get('type')) or d.get('_isref'):
                     return '(*%s)' % nm
                 return nm
+            gv = self.mutable_global(d, fctx, n)
+            if gv is not None: return gv
             return self.const_value(d, fctx, n)
         if rk in DECL_FN:
             d = self.ast.byid.get(rid)
@@ -2225,6 +2258,29 @@ class Translator:
                 return self.ex(b['_binding_expr'], fctx)
             fail('binding not yet declared', n)
         fail('unsupported DeclRefExpr to %s' % rk, n)
+
+    def mutable_global(self, d, fctx, n):
+        """namespace-scope variable of the instantiation TU (main file) that is neither const nor constexpr and has a builtin
+        scalar type (e.g. the live-object counter of a tracking element type): emitted as a C global of the same name with its
+        constant initializer (0 if none). Returns the C name, or None if d is not such a variable (-> constant folding)."""
+        if d.get('kind') != 'VarDecl' or d.get('constexpr'): return None
+        p = self.ast.par(d)
+        if p is None or p.get('kind') not in ('TranslationUnitDecl', 'NamespaceDecl', 'LinkageSpecDecl'): return None
+        qt = (d.get('type', {}).get('desugaredQualType') or d.get('type', {}).get('qualType') or '').strip()
+        if re.match(r'^(const|volatile)\b', qt) or qt.endswith('&') or qt.endswith(' const'): return None
+        if d.get('_file') != self.main_file: return None
+        ct = self.ctype(d.get('type'), fctx, d)
+        if ct.kind != 'builtin': return None
+        if not hasattr(self, 'global_defs'): self.global_defs = {}
+        nm = d.get('name')
+        if nm not in self.global_defs:
+            init = None
+            for c in d.get('inner', []) or []:
+                if c.get('kind') in ('TemplateArgument', 'FullComment') or c.get('kind', '').endswith('Attr'): continue
+                init = c
+            v = self.lit(self.const_eval(init, fctx), ct) if init is not None else self.lit(0, ct)
+            self.global_defs[nm] = '%s = %s;' % (ct.decl(nm), v)
+        return nm
 
     def enclosing_fn_of_parm(self, d):
         return self.ast.par(d)
@@ -2849,7 +2905,22 @@ class Translator:
         return call
 
     # ---- std models
+    def variant_index(self, rct, act):
+        hits = [i for i, e in enumerate(rct.margs) if self._ct_equal(e, act)]
+        return hits[0] if len(hits) == 1 else None
+
     def model_construct(self, n, rct, args, fctx):
+        if rct.model == 'variant':
+            if not args:
+                return '((%s){.idx = 0UL})' % rct.c
+            a = args[0]
+            try: act = self.ctype(a.get('type'), fctx, a)
+            except Unsupported: act = None
+            if act is not None and act.kind == 'ptr' and act.ref: act = act.elem
+            if act is not None and act is rct: return self.ex(a, fctx)
+            k = self.variant_index(rct, act) if act is not None else None
+            if k is None: fail('std::variant construction from a non-alternative type', n)
+            return '((%s){.idx = %dUL, .u = {.a%d = %s}})' % (rct.c, k, k, self.ex(a, fctx))
         if rct.model == 'optional':
             e = rct.margs[0]
             if not args:
@@ -2917,6 +2988,37 @@ class Translator:
                 if nm == 'operator=' and len(args) == 1: return '(%s = %s)' % (o, self.ex(args[0], fctx))
             if oct.model == 'tuple':
                 if nm == 'operator=' and len(args) == 1: return '(%s = %s)' % (o, self.ex(args[0], fctx))
+        if rec is not None and objinfo is not None:
+            obj, is_arrow = objinfo
+            oct2 = self.record_ct(rec, fctx)
+            if oct2.model == 'variant':
+                o2 = ('(*%s)' % self.ex(obj, fctx)) if is_arrow else self.ex(obj, fctx)
+                if nm == 'index': return '%s.idx' % self.paren(o2)
+                if nm == 'operator=' and len(args) == 1:
+                    a = args[0]
+                    if self._same_ct(a, oct2, fctx): return '(%s = %s)' % (o2, self.ex(a, fctx))
+                    act = self.ctype(a.get('type'), fctx, a)
+                    if act.kind == 'ptr' and act.ref: act = act.elem
+                    k = self.variant_index(oct2, act)
+                    if k is None: fail('std::variant assignment from a non-alternative type', n)
+                    return '(%s = (%s){.idx = %dUL, .u = {.a%d = %s}})' % (o2, oct2.c, k, k, self.ex(a, fctx))
+        if nm in ('get_if', 'get', 'holds_alternative') and (q.startswith('std::get_if') or q.startswith('std::holds_alternative') or q.startswith('std::get')) and len(args) == 1:
+            a = args[0]
+            act = self.ctype(a.get('type'), fctx, a)
+            vct = act.elem if (act.kind == 'ptr' and act.elem.kind == 'struct') else act
+            if vct.kind == 'struct' and vct.model == 'variant':
+                ta = self.ast.targs(callee)
+                if re.match(r'^\d+$', ta[0]): k = int(ta[0])
+                else:
+                    k = self.variant_index(vct, self.ctype_str(ta[0], fctx, n))
+                if k is None: fail('std::variant: cannot determine the alternative for %s' % ta[0], n)
+                v = self.ex(a, fctx)
+                if nm == 'get_if':     # argument is a pointer to the variant
+                    return '(%s->idx == %dUL ? &%s->u.a%d : (%s)0)' % (self.paren(v), k, self.paren(v), k, CT('ptr', elem=vct.margs[k]).decl())
+                if nm == 'holds_alternative':
+                    return '(%s.idx == %dUL)' % (self.paren(v), k)
+                t = self.new_temp(CT('ptr', elem=vct), fctx)
+                return '(*(%s = %s, __CPROVER_assert(%s->idx == %dUL, "std::get on a variant holding another alternative"), &%s->u.a%d))' % (t, self.addr_of_text(v), t, k, t, k)
         if nm == 'get' and q.startswith('std::get') and len(args) == 1:
             ta = self.ast.targs(callee)
             a = args[0]
@@ -2955,6 +3057,8 @@ class Translator:
                 out.append('typedef %s;' % ct.decl(nm))
             except Unsupported:
                 pass
+        for gd in getattr(self, 'global_defs', {}).values():
+            out.append(gd)          # mutable namespace-scope scalars of the instantiation TU (see mutable_global)
         out.append(spec_prelude)
         for did in self.fn_order:
             out.append(self.fn_proto[did] + ';')
